@@ -669,7 +669,11 @@ def rand_req(rng, sc, s, st, created, poisoned, no_change, kinds=None):
     elif kind == "add":
         r = rng.choice([rng.randrange(1, 12), rng.randrange(1, 12)] + ids_known)
         c = rng.choice(["rel:0:0", "rel:0:0", "rel:0:0"] + FENCES_BAD)
-        sc.req("ADD", s, m=[r], c=c, addrs=[rng.choice(["x1", "x2", "x3", "h0"])] + (["x4"] if rng.random() < 0.2 else []))
+        # a replica id this NodeHost has ever started is registered there with the NodeHost's own address: dragonboat
+        # fail-stops ("inconsistent target") when a config change names another address for it - never composed by Drummer
+        # (replica ids are fresh), so such an ADD names h0
+        a0 = "h0" if r in ids_known else rng.choice(["x1", "x2", "x3", "h0"])
+        sc.req("ADD", s, m=[r], c=c, addrs=[a0] + (["x4"] if rng.random() < 0.2 else []))
         if c == "rel:0:0":
             poisoned.add(s)
     elif kind == "delete":
@@ -827,7 +831,8 @@ def run_executor(ck, binp, scns, tag):
                 cur.recs.append(rec)
         if cur is not None:          # process died inside this scenario
             cur.crashed = True
-            cur.crash_log = out[-1500:]
+            ip = max(out.rfind("panic:"), out.rfind("fatal error:"))
+            cur.crash_log = (out[max(0, ip - 300):ip + 1200] + "\n...\n" if ip >= 0 else "") + out[-800:]
             done += 1
         elif rc != 0 and done < len(todo):
             ck.violation("agent executor stopped outside a scenario", {"kind": "executor", "rc": rc, "log_tail": out[-3000:]}, found_input=False)
